@@ -18,6 +18,8 @@ pinning/pinner/dsindex/indexer.go.
   (`present`, grows when `Pin` adds the root block).  `merkledag.FetchGraph`, `dagutils.DiffEnumerate`
   and the concurrent `merkledag.Walk` of the batch queries are modelled by their outcome
   (`fetchOk`, `diffEnum`, `reachStar`); `hasChild` (pin.go) is transcribed with its visited set.
+* `update` omits the re-check of the two index lookups after DiffEnumerate (fix 6296254): within one
+  atomic call nothing changed in between, the re-check is in `updateResume`.
 * `step` is one API call executed atomically; the window in which `doPinRecursive`/`Update`
   release the lock is modelled separately (`stepNested`).
 Core-only: also imported by the drivers.
@@ -410,6 +412,88 @@ def step (dag : Dag) (s : St) (op : Op) : St × Res :=
   | .setAutosync auto => ({ s with autoSync := auto }, .ok)
   | .flush => (setClean s, .ok)                           -- Flush: flushDagService(force), flushPins(force)
 
+/-! ### the window in which doPinRecursive / Update release the lock (two-call interleavings)
+
+`FetchGraph` / `DiffEnumerate` run with the pinner lock released; another call `B` can run completely
+inside that window.  `…Resume` is the rest of the interrupted call after it has re-acquired the lock. -/
+
+def Write.isFlag : Write → Bool
+  | .putDirty _ => true
+  | _ => false
+
+/-- doPinRecursive after the window; `found` = the CID had a recursive pin before the window,
+`changed` = `p.dirty != dirtyBefore` (some call inside the window called setDirty) -/
+def pinRecursiveResume (dag : Dag) (s : St) (c : Nat) (name : Nat) (found changed : Bool) : St × Res :=
+  if !fetchOk dag s.present c then (s, .notfound)
+  else if !found ∧ changed ∧ s.store.idxR.hasAny c then (s, .ok)   -- pinned in the meantime: nothing left to do
+  else
+    let oldR := s.store.idxR.search c
+    let oldD := s.store.idxD.search c
+    let s := addPin s c .recursive name
+    let s := (removeIds c (some .recursive) oldR s false).1
+    let s := (removeIds c (some .direct) oldD s false).1
+    (flushPins s, .ok)
+
+/-- Update after the window: the two index checks are repeated (fix 6296254), then as in `update` -/
+def updateResume (dag : Dag) (s : St) (src dst : Nat) (doUnpin : Bool) : St × Res :=
+  if !diffEnum dag s.present (dag.n + 1) src dst then (s, .notfound)
+  else
+    let fromVals := s.store.idxR.search src
+    if fromVals.length ≠ 1 then (s, .fromNotRec)
+    else if s.store.idxR.hasAny dst then (s, .toRec)
+    else match RMap.find s.store.recs (fromVals.headD 0) with
+      | none => (s, .notfound)                            -- loadPin: datastore key not found
+      | some pp =>
+        let s := addPin s dst .recursive pp.name
+        let s := if doUnpin then (removePinsForCid s src (some .recursive)).1 else s
+        (flushPins s, .ok)
+
+/-- Update after the window as it was before fix 6296254: no re-check, stale pin id of `src` -/
+def updateResumeOld (dag : Dag) (s : St) (src dst : Nat) (doUnpin : Bool) (fromId : Nat) : St × Res :=
+  if !diffEnum dag s.present (dag.n + 1) src dst then (s, .notfound)
+  else match RMap.find s.store.recs fromId with
+    | none => (s, .notfound)
+    | some pp =>
+      let s := addPin s dst .recursive pp.name
+      let s := if doUnpin then (removePinsForCid s src (some .recursive)).1 else s
+      (flushPins s, .ok)
+
+structure Nested where
+  st : St
+  resA : Res
+  resB : Option Res        -- `none`: A failed before its window, B did not run
+  logB : List Write
+  logA : List Write
+
+/-- Pin(c, recursive, name) with the complete call B inside its FetchGraph window -/
+def nestedPin (dag : Dag) (s : St) (c name : Nat) (opB : Op) : Nested :=
+  let s := { s with log := [], present := if s.present.contains c then s.present else c :: s.present }
+  let found := s.store.idxR.hasAny c
+  let rb := step dag s opB
+  let changed := rb.1.log.any (fun w => !w.isFlag)
+  let ra := pinRecursiveResume dag { rb.1 with log := [] } c name found changed
+  { st := ra.1, resA := ra.2, resB := some rb.2, logB := rb.1.log, logA := ra.1.log }
+
+/-- Update(src, dst, u) with the complete call B inside its DiffEnumerate window -/
+def nestedUpdate (dag : Dag) (s : St) (src dst : Nat) (u : Bool) (opB : Op) : Nested :=
+  let s := { s with log := [] }
+  if (s.store.idxR.search src).length ≠ 1 then { st := s, resA := .fromNotRec, resB := none, logB := [], logA := [] }
+  else if src = dst then { st := s, resA := .ok, resB := none, logB := [], logA := [] }
+  else if s.store.idxR.hasAny dst then { st := s, resA := .toRec, resB := none, logB := [], logA := [] }
+  else
+    let rb := step dag s opB
+    let ra := updateResume dag { rb.1 with log := [] } src dst u
+    { st := ra.1, resA := ra.2, resB := some rb.2, logB := rb.1.log, logA := ra.1.log }
+
+/-- call A (Pin(recursive) or Update, live context) with the complete call B inside A's window -/
+def stepNested (dag : Dag) (s : St) (opA opB : Op) : Nested :=
+  match opA with
+  | .pin c true name .ok => nestedPin dag s c name opB
+  | .update src dst u .ok => nestedUpdate dag s src dst u opB
+  | _ =>
+    let ra := step dag s opA
+    { st := ra.1, resA := ra.2, resB := none, logB := [], logA := ra.1.log }
+
 /-! ### the code before the fix (kept for the counterexample theorems only) -/
 
 def pinRecursiveOld (dag : Dag) (s : St) (c : Nat) (fetch : Bool) (name : Nat) (ctx : Ctx) : St × Res :=
@@ -422,6 +506,55 @@ def pinRecursiveOld (dag : Dag) (s : St) (c : Nat) (fetch : Bool) (name : Nat) (
       let s := if s.store.idxD.hasAny c then (removePinsForCid s c (some .direct)).1 else s
       let s := addPin s c .recursive name
       (flushPins s, .ok)
+
+/-! ### a datastore write that fails (scripted I/O error)
+
+Derived from the code's error handling: a failed Put/Delete makes the call return the error at once
+(nothing after it is written, no flushPins), with two exceptions: setDirty / setClean only log a failed
+flag write and carry on; addPin deletes the cid index entry it has just added when the name index write
+fails.  `stepIO dag s op k` = the call `op` whose k-th write attempt (0-based) fails, expressed through
+the write log of the undisturbed call. -/
+
+def Write.isPut' : Write → Bool
+  | .putRec _ _ => true
+  | _ => false
+
+/-- drop the first `putDirty 1` of a log -/
+def dropDirty1 : List Write → List Write
+  | [] => []
+  | .putDirty 1 :: r => r
+  | w :: r => w :: dropDirty1 r
+
+structure IOOut where
+  st : St
+  res : Option Res     -- `none` = the injected datastore error was returned
+
+def stepIO (dag : Dag) (s : St) (op : Op) (k : Nat) : IOOut :=
+  let full := step dag s op
+  let L := full.1.log
+  match L[k]? with
+  | none => { st := full.1, res := some full.2 }
+  | some (.putDirty 1) =>
+    -- setDirty: the flag is not persisted, the call carries on
+    let L' := L.take k ++ L.drop (k + 1)
+    { st := { full.1 with store := s.store.applyAll L', log := L' }, res := some full.2 }
+  | some (.putDirty _) =>
+    -- setClean: the pinner stays dirty in memory; a later setDirty writes nothing
+    let rest := dropDirty1 (L.drop (k + 1))
+    let L' := L.take k ++ rest
+    let cleanedLater := rest.any (fun w => w == .putDirty 0)
+    { st := { full.1 with store := s.store.applyAll L', log := L',
+                          memDirty := if cleanedLater then full.1.memDirty else true },
+      res := some full.2 }
+  | some w =>
+    let comp : List Write := match w, L[k - 1]? with
+      | .addIdx .N _ _, some (.addIdx x c id) => [.delIdx x c id]     -- addPin's compensation
+      | _, _ => []
+    let L' := L.take k ++ comp
+    { st := { store := s.store.applyAll L', memDirty := true,
+              nextId := if (L.take k).any Write.isPut' then full.1.nextId else s.nextId,
+              present := full.1.present, log := L', autoSync := full.1.autoSync },
+      res := none }
 
 /-! ### crash and reopen (C23) -/
 
@@ -437,12 +570,19 @@ def rebuildOne (s : St) (id : Nat) (pp : PinRec) : St :=
            else s.write (.addIdx (modeIdx pp.mode) pp.cid id)
   if pp.name ≠ 0 ∧ !s.store.idxN.hasValue pp.name id then s.write (.addIdx .N pp.name id) else s
 
+/-- the records in the order in which the datastore lists `/pins/pin/*` (by creation of the id) -/
+def insRec (e : Nat × PinRec) : List (Nat × PinRec) → List (Nat × PinRec)
+  | [] => [e]
+  | x :: r => if e.1 < x.1 then e :: x :: r else x :: insRec e r
+
+def sortRecs (l : List (Nat × PinRec)) : List (Nat × PinRec) := l.foldr insRec []
+
 /-- New(): load the dirty flag, rebuild the indexes from the records when it is 1 -/
 def reopenStore (st : Store) (nextId : Nat) (present : List Nat) : St :=
   let s : St := { store := st, memDirty := false, nextId := nextId, present := present, log := [], autoSync := true }
   if st.dirty = some 1 then
     let s := { s with memDirty := true }
-    let s := st.recs.foldl (fun s e => rebuildOne s e.1 e.2) s
+    let s := (sortRecs st.recs).foldl (fun s e => rebuildOne s e.1 e.2) s
     setClean s                   -- flushPins(ctx, true)
   else s
 
@@ -450,5 +590,18 @@ def reopenStore (st : Store) (nextId : Nat) (present : List Nat) : St :=
 def crashReopen (dag : Dag) (s : St) (op : Op) (n : Nat) : St :=
   let r := (step dag s op).1
   reopenStore (s.store.applyAll (r.log.take n)) r.nextId r.present
+
+/-- the process stops after n writes of the call, is restarted, stops again after j writes of
+New + rebuildIndexes, and is restarted once more -/
+def crashReopen2 (dag : Dag) (s : St) (op : Op) (n j : Nat) : St :=
+  let r := crashReopen dag s op n
+  reopenStore ((s.store.applyAll ((step dag s op).1.log.take n)).applyAll (r.log.take j)) r.nextId r.present
+
+/-- harness corruption: the record of the first pin of cid `c` in the index of `mode` disappears
+(an index entry without its record; exercises the repair branch of removePinsWithIDs) -/
+def plant (s : St) (c : Nat) (mode : Mode) : St × Bool :=
+  match (s.store.idx (modeIdx mode)).search c with
+  | [] => (s, false)
+  | id :: _ => ({ s with store := { s.store with recs := RMap.erase s.store.recs id } }, true)
 
 end C22
